@@ -54,7 +54,7 @@ def gen_case(rng, i, tier):
             hist.append({'call': 'output_docs'})
         else:
             hist.append({'call': 'to_writer', 'format': rng.choice(['', 'json', 'yaml'])})
-    return {'hist': hist, 'labels': sorted(labels)}
+    return {'hist': hist, 'labels': sorted(labels), 'files': i % 4 == 0}
 
 
 def fixed_cases(tier):
@@ -103,9 +103,31 @@ def check_case(ctx, case):
     def add(op, tag):
         ops.append(op)
         tags.append(tag)
+    files = bool(case.get('files')) and all(isinstance(h.get('data', {}), dict) for h in hist)
+    fdir = None
+    paths = {}
+    if files:
+        # the same history through MergeFileLayers: every merged document becomes a layer file (children by filename inheritance)
+        import os, random
+        from .. import ser
+        frng = random.Random(json.dumps(hist, sort_keys=True, default=str))
+        fdir = ctx.casedir()
+        res.labels.add('via:MergeFileLayers')
+        for hi, h in enumerate(hist):
+            if h['call'] != 'merge':
+                continue
+            ext = frng.choice(['json', 'yaml', 'toml'])
+            if ext == 'toml' and not ser.toml_ok(h['data']):
+                ext = 'yaml'
+            stem = h['id'] if not h['parents'] else '%s.%s' % (h['parents'][0], h['id'])
+            paths[hi] = os.path.join(fdir, stem + '.' + ext)
+            with open(paths[hi], 'w') as f:
+                f.write(ser.write(ext, [h['data']], frng))
     for hi, h in enumerate(hist):
         c = h['call']
-        if c == 'merge':
+        if c == 'merge' and files:
+            add({'op': 'merge_layers', 'path': paths[hi], 'parser': 0}, ('merge', hi))
+        elif c == 'merge':
             add({'op': 'merge_doc', 'id': h['id'], 'parents': h['parents'], 'data': h['data'], 'parser': 0}, ('merge', hi))
         elif c == 'documents':
             add({'op': 'documents', 'parser': 0}, ('docs', hi))
@@ -123,12 +145,16 @@ def check_case(ctx, case):
     add({'op': 'output', 'format': 'yaml', 'parser': 0}, ('final-out-yaml', -1))
     # control: merges only
     for hi, h in enumerate(hist):
-        if h['call'] == 'merge':
+        if h['call'] == 'merge' and files:
+            add({'op': 'merge_layers', 'path': paths[hi], 'parser': 1}, ('ctl-merge', hi))
+        elif h['call'] == 'merge':
             add({'op': 'merge_doc', 'id': 'ctl:' + h['id'], 'parents': ['ctl:' + p for p in h['parents']], 'data': h['data'], 'parser': 1}, ('ctl-merge', hi))
     add({'op': 'documents', 'parser': 1}, ('ctl-docs', -1))
     add({'op': 'output', 'format': 'json', 'parser': 1}, ('ctl-out', -1))
     add({'op': 'output', 'format': 'yaml', 'parser': 1}, ('ctl-out-yaml', -1))
     resp = ctx.call(ops, res)
+    if fdir:
+        ctx.cleanup_case(fdir)
     if resp is None:
         return res.violate('crash', 'worker died', hist=hist)
     rs = resp['results']
@@ -195,7 +221,7 @@ def check_case(ctx, case):
             touched.update(h['parents'])
             if '$match' in h['data']:
                 touched.add('*')
-    if '*' not in touched and not merge_failed:
+    if '*' not in touched and not merge_failed and not files:
         final = dict(docs_of(by[('final-docs', -1)]))
         for h in hist:
             if h['call'] == 'merge' and not h['parents'] and h['id'] not in touched and by[('merge', hist.index(h))]['err'] is None:
